@@ -150,6 +150,9 @@ pub fn thrift_docs() -> Vec<SDoc> {
                         Method { name: "fire".into(), oneway: true, ret: None, args: vec![f(1, "s", Default, STy::String), f(2, "flag", Default, STy::Bool)], throws: vec![] },
                         Method { name: "count".into(), oneway: false, ret: Some(STy::I64), args: vec![f(5, "sc", Default, named(0, "Scalars"))], throws: vec![] },
                         Method { name: "risky".into(), oneway: false, ret: None, args: vec![f(1, "ch", Default, named(0, "Choice"))], throws: vec![f(1, "a", Default, named(1, "Oops")), f(2, "b", Default, named(1, "Oops"))] },
+                        // exception ids that are not 1..n in order (a retired id, a hole, out of order)
+                        Method { name: "gaps".into(), oneway: false, ret: None, args: vec![], throws: vec![f(2, "denied", Default, named(1, "Oops"))] },
+                        Method { name: "holes".into(), oneway: false, ret: Some(STy::I32), args: vec![f(7, "x", Default, STy::I32)], throws: vec![f(5, "late", Default, named(1, "Oops")), f(3, "early", Default, named(1, "Oops"))] },
                         Method { name: "names".into(), oneway: false, ret: Some(list(STy::String)), args: vec![f(1, "ids", Default, list(named(1, "Id")))], throws: vec![] },
                         // structs that reach a method only as container elements (never directly)
                         Method { name: "batch".into(), oneway: false, ret: Some(list(named(1, "Point"))), args: vec![f(1, "pts", Default, list(named(1, "Point"))), f(2, "by", Default, map(STy::String, named(0, "Keyed"))), f(3, "cs", Optional, set(named(1, "Color")))], throws: vec![] },
@@ -238,6 +241,10 @@ pub fn thrift_docs() -> Vec<SDoc> {
                     fd(49, "d_int_wide2", Optional, STy::Double, Lit::Int(123456789)),
                     fd(50, "ld_int_wide", Default, list(STy::Double), Lit::List(vec![Lit::Int(16777217), Lit::Int(-123456789)])),
                     fd(51, "md_int_wide", Default, map(STy::String, STy::Double), Lit::Map(vec![(Lit::Str("k".into()), Lit::Int(4294967297))])),
+                    fd(56, "b_neg", Default, STy::Bool, Lit::Int(-1)),
+                    fd(57, "b_neg_opt", Optional, STy::Bool, Lit::Hex(-16)),
+                    fd(58, "bools_neg", Default, list(STy::Bool), Lit::List(vec![Lit::Int(-1), Lit::Int(0), Lit::Int(2), Lit::Int(-9223372036854775807)])),
+                    fd(59, "mb_neg", Optional, map(STy::String, STy::Bool), Lit::Map(vec![(Lit::Str("k".into()), Lit::Int(-3))])),
                     fd(52, "perm_num", Default, named(0, "Perm"), Lit::Int(1)),
                     fd(53, "perm_num2", Optional, named(0, "Perm"), Lit::Int(2)),
                     fd(54, "perm_list", Default, list(named(0, "Perm")), Lit::List(vec![Lit::Int(2), Lit::Int(1), Lit::Int(0), Lit::Int(3)])),
@@ -325,7 +332,7 @@ pub fn thrift_docs() -> Vec<SDoc> {
     let model = SFile {
         stem: "kmodel".into(),
         namespace: vec!["base".into(), "model".into()],
-        includes: vec![],
+        includes: vec![2],
         decls: vec![
             Decl { name: "Tag".into(), kind: DeclKind::Enum(vec![("A".into(), 1), ("B".into(), 5)]) },
             Decl { name: "Count".into(), kind: DeclKind::Typedef(STy::I32) },
@@ -333,8 +340,18 @@ pub fn thrift_docs() -> Vec<SDoc> {
             Decl { name: "KUNIT".into(), kind: DeclKind::Const(STy::String, Lit::Str("ms".into())) },
             Decl {
                 name: "Meta".into(),
-                kind: DeclKind::Struct(vec![f(1, "id", Default, STy::String), f(2, "tag", Optional, named(1, "Tag")), fd(3, "lvl", Optional, STy::I32, Lit::Const(1, "KBASE".into())), fd(4, "unit", Default, STy::String, Lit::Const(1, "KUNIT".into()))]),
+                kind: DeclKind::Struct(vec![f(1, "id", Default, STy::String), f(2, "tag", Optional, named(1, "Tag")), fd(3, "lvl", Optional, STy::I32, Lit::Const(1, "KBASE".into())), fd(4, "unit", Default, STy::String, Lit::Const(1, "KUNIT".into())), f(5, "leaf", Optional, named(2, "Leaf")), f(6, "leaves", Default, list(named(2, "Leaf")))]),
             },
+        ],
+    };
+    // a third file that only kmodel includes: kshop reaches it over two include steps
+    let leaf = SFile {
+        stem: "kleaf".into(),
+        namespace: vec!["base".into(), "leaf".into()],
+        includes: vec![],
+        decls: vec![
+            Decl { name: "LeafKind".into(), kind: DeclKind::Enum(vec![("PLAIN".into(), 0), ("FANCY".into(), 3)]) },
+            Decl { name: "Leaf".into(), kind: DeclKind::Struct(vec![f(1, "n", Default, STy::I32), f(2, "s", Optional, STy::String), f(3, "kind", Optional, named(2, "LeafKind"))]) },
         ],
     };
     let shop = SFile {
@@ -396,7 +413,7 @@ pub fn thrift_docs() -> Vec<SDoc> {
             },
         ],
     };
-    let doc2 = SDoc { files: vec![shop, model] };
+    let doc2 = SDoc { files: vec![shop, model, leaf] };
     vec![doc0, doc1, doc2]
 }
 
@@ -477,6 +494,11 @@ pub fn proto_docs() -> Vec<crate::pschema::PDoc> {
         fields.push(PField { number: 312, name: "scr2_a".into(), ty: PTy::Scalar(Sc::Sint32), label: Label::Oneof(3) });
         fields.push(PField { number: 317, name: "scr2_b".into(), ty: PTy::Scalar(Sc::Bytes), label: Label::Oneof(3) });
         fields.push(PField { number: 314, name: "scr2_c".into(), ty: PTy::Scalar(Sc::Fixed64), label: Label::Oneof(3) });
+        // a message that can be present and empty (only optional / repeated members)
+        let hollow_ref = Ref { file, path: vec!["All".into(), "Hollow".into()] };
+        fields.push(PField { number: 212, name: "hollow".into(), ty: PTy::Message(hollow_ref.clone()), label: Label::Optional });
+        fields.push(PField { number: 213, name: "hollows".into(), ty: PTy::Message(hollow_ref.clone()), label: Label::Repeated });
+        fields.push(PField { number: 214, name: "hollow_map".into(), ty: PTy::Message(hollow_ref), label: Label::Map(Sc::Int32) });
         fields.push(PField { number: 536870911, name: "last".into(), ty: PTy::Scalar(Sc::Fixed32), label: Label::Optional });
         // field numbers on both sides of every key-length border (16, 2^11, 2^18, 2^25)
         for (i, num) in [16u32, 17, 262143, 262144, 33554431, 33554432].into_iter().enumerate() {
@@ -484,8 +506,19 @@ pub fn proto_docs() -> Vec<crate::pschema::PDoc> {
         }
         fields.push(PField { number: 2047, name: "two_byte_key_edge".into(), ty: PTy::Scalar(Sc::Uint64), label: Label::Optional });
         fields.push(PField { number: 2048, name: "three_byte_key".into(), ty: PTy::Scalar(Sc::Sfixed64), label: Label::Repeated });
+        let hollow = PMessage {
+            name: "Hollow".into(),
+            fields: vec![
+                PField { number: 1, name: "x".into(), ty: PTy::Scalar(Sc::Int32), label: Label::Optional },
+                PField { number: 2, name: "ys".into(), ty: PTy::Scalar(Sc::String), label: Label::Repeated },
+                PField { number: 3, name: "deeper".into(), ty: PTy::Message(Ref { file, path: vec!["All".into(), "Hollow".into()] }), label: Label::Optional },
+            ],
+            oneofs: vec![],
+            nested: vec![],
+            enums: vec![],
+        };
         let small = PEnum { name: "Small".into(), values: vec![("SMALL_ZERO".into(), 0), ("SMALL_ONE".into(), 1), ("SMALL_TWO".into(), 2)] };
-        let all = PMessage { name: "All".into(), fields, oneofs: vec!["pick".into(), "other".into(), "scr".into(), "scr2".into()], nested: vec![inner], enums: vec![kind, small] };
+        let all = PMessage { name: "All".into(), fields, oneofs: vec!["pick".into(), "other".into(), "scr".into(), "scr2".into()], nested: vec![inner, hollow], enums: vec![kind, small] };
         let tree = PMessage {
             name: "Tree".into(),
             fields: vec![
